@@ -76,9 +76,9 @@ def run_component_case(c, want_jac=True):
     ok, msg = close_vec(real_flat, mval, rtol=vtol, atol=c.get("vatol", 0.0))
     if not ok:
         out.append(dict(kind="value", component=c["name"], size=c["size"], detail=msg))
-    if c.get("pattern"):
+    pats = c.get("pattern") or []
+    for pt in ([pats] if isinstance(pats, dict) else pats):
         # the declared sparsity arrays themselves (rows, cols and, for constant partials, val) against the transliterated pattern
-        pt = c["pattern"]
         comp = prob.model.c
         info = comp._subjacs_info.get((comp.pathname + "." + pt["of"], comp.pathname + "." + pt["wrt"]))
         mp = core.model_value(pt["op"], pt["ints"], np.asarray(pt.get("floats", []), dtype=float))
@@ -90,7 +90,8 @@ def run_component_case(c, want_jac=True):
             decl = np.concatenate(parts)
             if decl.shape != mp.shape or not np.array_equal(decl, mp):
                 out.append(dict(kind="pattern", component=c["name"], size=c["size"],
-                                detail="declared rows/cols/val differ from the transliterated pattern: %s vs %s" % (decl.tolist()[:24], mp.tolist()[:24])))
+                                detail="declared rows/cols/val of (%s, %s) differ from the transliterated pattern: %s vs %s"
+                                       % (pt["of"], pt["wrt"], decl.tolist()[:24], mp.tolist()[:24])))
     nontrivial = bool(np.any(np.abs(real_flat) > 0))
     return out, dict(nontrivial=nontrivial, hash=case_hash(c["name"], c["ints"], floats),
                      n_in=int(in_flat.size), n_out=int(real_flat.size))
